@@ -251,5 +251,35 @@ Section SpecExec.
   | SFd_value tname v k fd node nodes p args x r es :
       coerce_args fd node = Ok args -> spec_resolved tname v k fd p args (RVal x) ->
       SComplete (node :: nodes) (f_type fd) p x r es ->
-      SField_ tname v k fd (node :: nodes) p r es.
+      SField_ tname v k fd (node :: nodes) p r es
+  (* the library's policy when the sub-selection of an object inside the
+     field's value cannot be collected (no CollectFields result: invalid
+     @skip / @include arguments): the field is null with one error at its
+     path; errors of list items completed before remain *)
+  | SFd_abort tname v k fd node nodes p args x es :
+      coerce_args fd node = Ok args -> spec_resolved tname v k fd p args (RVal x) ->
+      SAbort (node :: nodes) (f_type fd) p x es ->
+      SField_ tname v k fd (node :: nodes) p PNone (es ++ [Err p [] ECoercion])
+  (* completion stops at the first object whose sub-selection has no
+     CollectFields result; es = the errors recorded until then *)
+  with SAbort : list selection -> tref -> path -> pv -> list error -> Prop :=
+  | SA_nonnull nodes t p v es : SAbort nodes t p v es -> SAbort nodes (RNonNull t) p v es
+  | SA_list nodes t p v items es :
+      v <> PNone -> iter_items v = Some items -> SAbortItems nodes t p 0%N items es ->
+      SAbort nodes (RList t) p v es
+  | SA_object nodes n fs ifs p v :
+      v <> PNone -> get_type sch n = Some (TObject fs ifs) ->
+      (forall g, ~ G n (children_of nodes) g) ->
+      SAbort nodes (RNamed n) p v []
+  | SA_abstract nodes n rt p v :
+      v <> PNone -> is_abstract sch n = true -> spec_runtime_type n v rt ->
+      (forall g, ~ G rt (children_of nodes) g) ->
+      SAbort nodes (RNamed n) p v []
+  with SAbortItems : list selection -> tref -> path -> N -> list pv -> list error -> Prop :=
+  | SAI_here nodes t p i x items es :
+      SAbort nodes t (p ++ [PIdx i]) x es -> SAbortItems nodes t p i (x :: items) es
+  | SAI_later nodes t p i x items r es es' :
+      SComplete nodes t (p ++ [PIdx i]) x r es ->
+      SAbortItems nodes t p (N.succ i) items es' ->
+      SAbortItems nodes t p i (x :: items) (es ++ es').
 End SpecExec.
